@@ -63,7 +63,7 @@ pub fn run(ctx: &Ctx) {
     // (a) single documents
     let mut all_distinct: HashSet<u64> = HashSet::new();
     let mut total_evals = 0u64;
-    for cfg in [plain_cfg(ctx.tier.pick(5, 7)), wide_cfg(ctx.tier.pick(4, 5)), deep_cfg(ctx.tier.pick(6, 8)), history_cfg(ctx.tier.pick(4, 5))] {
+    for cfg in [plain_cfg(ctx.tier.pick(5, 7)), wide_cfg(ctx.tier.pick(4, 5)), deep_cfg(ctx.tier.pick(6, 8)), history_cfg(ctx.tier.pick(4, 5)), entity_cfg(ctx.tier.pick(4, 5))] {
     let describe = cfg.describe();
     let sp = Space::new(cfg);
     let res = par_for(
@@ -73,7 +73,7 @@ pub fn run(ctx: &Ctx) {
         Some(ctx.deadline),
         |_| HashSet::<u64>::new(),
         |acc, i| {
-            let d = DocEntry::from_root(sp.get(i));
+            let d = DocEntry::from_doc(sp.doc(i));
             if i % 97 == 0 {
                 if let Err(e) = self_check(&d) {
                     ctx.machinery_error(e);
@@ -137,9 +137,10 @@ pub fn run(ctx: &Ctx) {
         let stats = search.run();
         record_bfs(ctx, &format!("extend over documents of weight <= {}", aw), &stats, events.len(), depth);
     }
+    names_part(ctx);
     ctx.set(
         "rule",
-        json!("(a) every document of the single-document space, each parsed, rendered under both presets and both sort options and compared for equality with the DOM-based reference schema; distinct_nontrivial = number of distinct reference schemas among them. (b) breadth-first search over extend_struct: states are real Element values deduplicated on the exact K_full key, every transition is the real extend_struct call and is compared with the reference schema of its whole history"),
+        json!("(c) small trees over 2-subsets of the adversarial name pool (prefixed names, attribute and child of the same name ...), as one document and split into two, judged like (a). (a) every document of the single-document space, each parsed, rendered under both presets and both sort options and compared for equality with the DOM-based reference schema; distinct_nontrivial = number of distinct reference schemas among them. (b) breadth-first search over extend_struct: states are real Element values deduplicated on the exact K_full key, every transition is the real extend_struct call and is compared with the reference schema of its whole history"),
     );
     ctx.assume("reference model: presence in all occurrences / max count per occurrence / any text or CDATA node, computed from a DOM built by the harness' own reader");
 }
@@ -171,5 +172,51 @@ pub fn replay(ctx: &Ctx, case: &Value) {
     }
     if seen[0] != seen[1] {
         ctx.machinery_error("replay is not deterministic".into());
+    }
+}
+
+/// (c) adversarial names: exactness must not depend on how names are spelled
+fn names_part(ctx: &Ctx) {
+    use super::names::*;
+    let pool = pool(&["degenerate"]);
+    let subs = subsets(pool.len(), 2);
+    let params = TreeParams { min_nodes: 1, max_nodes: 3, max_decorated: 1, root_from_subset: false, shard: (0, 1) };
+    let res = par_for(
+        subs.len() as u64,
+        ctx.threads,
+        1,
+        Some(ctx.deadline),
+        |_| 0u64,
+        |acc, si| {
+            let subset: Vec<PoolName> = subs[si as usize].iter().map(|&i| pool[i]).collect();
+            let mut local = 0u64;
+            for_each_tree(&subset, &params, &mut |root| {
+                if !prefix_clash_free(root) {
+                    return;
+                }
+                local += 1;
+                let rank = (1 << 50) | (si << 24) | local.min(0xff_ffff);
+                let mut histories: Vec<Vec<DocEntry>> = vec![vec![DocEntry::from_root(root.clone())]];
+                for at in 1..root.children().count() {
+                    if let Some((a, b)) = split(root, at) {
+                        histories.push(vec![DocEntry::from_root(b.clone()), DocEntry::from_root(a.clone())]);
+                        histories.push(vec![DocEntry::from_root(a), DocEntry::from_root(b)]);
+                    }
+                }
+                for h in histories {
+                    let refs: Vec<&DocEntry> = h.iter().collect();
+                    *acc += 1;
+                    if let Ok(el) = run_history(&refs) {
+                        ctx.report_all(judge(&refs, &el, rank));
+                    }
+                }
+            });
+        },
+    );
+    let evals: u64 = res.accs.iter().sum();
+    ctx.add("evaluations", evals);
+    ctx.set("named_trees", json!({"pool": pool.len(), "subsets": subs.len(), "subsets_done": res.processed, "nodes_max": params.max_nodes, "histories": evals}));
+    if !res.complete {
+        ctx.set("exhaustive", json!(false));
     }
 }
